@@ -24,6 +24,7 @@ def plan(tier, seed):
     # all name files intact and once each with one creator's file damaged
     for j, kind in enumerate(("ok", "damaged-O", "damaged-B")):
         specs.append({"mode": "random", "n": per, "rseed": seed * 1000 + 700 + j, "registry": False, "bmc": kind})
+    specs.append({"mode": "climodes", "n": 25 if tier == "quick" else 600, "rseed": seed * 1000 + 750})
     specs.append({"mode": "sweep_uh", "rseed": seed * 1000 + 800, "all_flags": tier != "quick"})
     specs.append({"mode": "sweep_ph", "rseed": seed * 1000 + 801, "reps": 1 if tier == "quick" else 20})
     specs.append({"mode": "sweep_lp", "rseed": seed * 1000 + 802, "reps": 1 if tier == "quick" else 10})
@@ -32,7 +33,8 @@ def plan(tier, seed):
 
 def minimums(tier):
     return {"PH.entries": 10000, "UH.entries": 10000, "EH.entries": 1500, "MT.entries": 1500, "LP.entries": 1500,
-            "field.LP.Target LP*": 1500, "field.UH.Action Flags": 10000, "bmc.names_displayed": 40, "bmc.path_accesses": 6}
+            "field.LP.Target LP*": 1500, "field.UH.Action Flags": 10000, "bmc.names_displayed": 40, "bmc.path_accesses": 6,
+            "cli.mode_runs": 200, "cli.mode_runs_with_dominated_options": 130, "embedded-in-larger-stream": 500}
 
 
 KINDS = [("EH", 10), ("MT", 10), ("LP", 10), ("SS", 2), ("UD", 2), ("HEX", 2)]
@@ -54,6 +56,8 @@ def run(spec, ctx):
             if pm.as_hex_or_none(shown) is None:
                 ctx.count("bmc.names_displayed")
             ctx.counters["bmc.path_accesses"] = harness._bmc["opens"]
+    if spec["mode"] == "climodes":
+        return fidelity.run_cli_modes(spec, ctx, "C02", rng, u, reg, KINDS, creators=pm.KNOWN_CREATORS)
     if spec["mode"] == "random":
         for _ in range(spec["n"]):
             one(gen.gen_pel(rng, u, reg=reg, kinds=KINDS, nopt=rng.choice([1, 2, 3, 4, 6])))
